@@ -51,6 +51,10 @@ Theorem C05_delta_k_bookkeeping : forall p,
   pm_k_i p = signum (p_dirz_i p) * (p_n_i p * p_omega_i p / 299792458).
 Proof. exact delta_k_bookkeeping. Qed.
 
+(* the walk-off coefficient n of the closure (A6 = i n (1 + z)) is (L/2) tan(rho) for every walk-off angle, positive or negative *)
+Theorem C05_walkoff_length : forall p, pm_n p = 0.5 * p_L p * tan (p_rho p).
+Proof. exact walkoff_length. Qed.
+
 (* clause 2: zero-diffraction closed form of the closure (wx = Wx^2, wy = Wy^2, ss = Ws_SQ, si = Wi_SQ, nn = (L/2) tan rho):
    integrand(z) = apod(z) (4 / sqrt(Sigma_x Sigma_y)) exp(-a^2 (1+z)^2) Cexp(i (psi_h + ee + ff z)),  a^2 = nn^2 (ss + si) / Sigma_y;
    for round beams Sigma_x = Sigma_y = Sigma = Wp^2 Ws^2 + Wp^2 Wi^2 + Ws^2 Wi^2 *)
@@ -149,6 +153,7 @@ Print Assumptions C05_fiber_coupling_form.
 Print Assumptions C05_collinear_reduction.
 Print Assumptions C05_collinear_coefficients.
 Print Assumptions C05_delta_k_bookkeeping.
+Print Assumptions C05_walkoff_length.
 Print Assumptions C05_zero_diffraction_partial.
 Print Assumptions C05_zero_diffraction_modulus_partial.
 Print Assumptions C05_waist_limit.
